@@ -627,6 +627,27 @@ Warm(c) ==
        [] k = "Amorph" -> c.p + 12
        [] OTHER -> 2
 
+\* number of earlier candles ONE new reading needs once the indicator is warmed up (C15: "one
+\* predecessor for purely recursive indicators"; a window for the windowed ones).  Never below
+\* what the formulas F read, so a claim is only made where the property makes one.
+Look(c) ==
+  LET k == c.kind
+  IN CASE k \in {"EMA", "RMA", "ATR", "KC", "RSI", "MACD", "TSI", "ADX", "Supertrend", "OBV", "VWAP", "TR",
+                 "Counter", "HLA"} -> 1
+       [] k \in {"SMA", "WMA", "VWMA", "STDEV", "BBANDS", "ROC", "HL", "AROON", "DONCHIAN", "HMA"} -> c.p
+       [] k = "STDEVTHRES" -> c.p + 1
+       [] k = "STOCH" -> MaxI(c.p, MaxI(c.p2, c.p3))
+       [] OTHER -> Warm(c)
+
+\* the indicator is warmed up on candle x: its reading there is complete (Supertrend shows only
+\* one of long / short by design)
+WarmedOn(c, x) ==
+  LET v == IF KVHas(x.ind, c.name) THEN KVGet(x.ind, c.name) ELSE NoneV
+  IN IF v.t = "n" THEN FALSE
+     ELSE IF v.t = "d" THEN \A q \in 1..Len(v.k) :
+                               v.v[q].t # "n" \/ (c.kind = "Supertrend" /\ v.k[q] \in {"long", "short"})
+     ELSE TRUE
+
 \* every name the indicator writes (purge must remove exactly these)
 OwnedNames(c) == LET ss == SeriesOf(c) IN {ss[j].name : j \in 1..Len(ss)}
 
